@@ -94,33 +94,54 @@ Proof. exact triage_sound. Qed.
 Print Assumptions triage_sign_never_wrong.
 
 Theorem stable_sign_never_wrong : H_STABLE_DET -> forall a b c, unit_pt a -> unit_pt b -> unit_pt c ->
-  s2_stableSign a b c <> 0%Z -> s2_stableSign a b c = sgnR (detR a b c).
+  stable_ok a b c -> s2_stableSign a b c <> 0%Z -> s2_stableSign a b c = sgnR (detR a b c).
 Proof. exact stable_sound. Qed.
 Print Assumptions stable_sign_never_wrong.
 
+(** FINDING (KNOWN_FINDINGS.jsonl kind stableSign.underflow). The property sentence "RobustSign
+    returns the sign of the exact determinant whenever it is non-zero", at full strength over all
+    unit-length float64 points, is FALSE of the unchanged code: *)
+Theorem robust_sign_is_sign_of_nonzero_determinant_refuted :
+  exists a b c, unit_pt a /\ unit_pt b /\ unit_pt c /\
+    detR a b c <> 0 /\ robust_sign a b c <> sgnR (detR a b c).
+Proof. exact robust_sign_det_refuted. Qed.
+Print Assumptions robust_sign_is_sign_of_nonzero_determinant_refuted.
+
+(** and the unguarded hypothesis about stableSign it would need is refuted by the same witness *)
+Theorem stable_sign_unguarded_refuted : ~ H_STABLE_DET_ALL.
+Proof. exact H_STABLE_DET_ALL_refuted. Qed.
+Print Assumptions stable_sign_unguarded_refuted.
+
+(** What does hold: the same statements under the guard [stable_ok a b c] — the error scale
+    sqrt(|e1|^2 |e2|^2) that stableSign computes is at least 2^-480, i.e. no two of the three
+    points are closer than about 1e-144 (the repair proposed for the Go code is to return
+    Indeterminate below such a threshold, which makes the guard vacuous). *)
 Theorem robust_sign_is_exact_sign : H_TRIAGE_DET -> H_STABLE_DET -> forall a b c,
-  unit_pt a -> unit_pt b -> unit_pt c ->
+  unit_pt a -> unit_pt b -> unit_pt c -> stable_ok a b c ->
   robust_sign a b c = if identical2 a b c then 0%Z else exact_sign a b c.
 Proof. exact robust_sign_spec. Qed.
 Print Assumptions robust_sign_is_exact_sign.
 
 Theorem robust_sign_is_sign_of_nonzero_determinant : H_TRIAGE_DET -> H_STABLE_DET -> forall a b c,
-  unit_pt a -> unit_pt b -> unit_pt c -> detR a b c <> 0 -> robust_sign a b c = sgnR (detR a b c).
+  unit_pt a -> unit_pt b -> unit_pt c -> stable_ok a b c ->
+  detR a b c <> 0 -> robust_sign a b c = sgnR (detR a b c).
 Proof. exact robust_sign_det. Qed.
 Print Assumptions robust_sign_is_sign_of_nonzero_determinant.
 
-Theorem robust_sign_zero_iff_two_identical : H_TRIAGE_DET -> H_STABLE_DET -> forall a b c,
+Theorem robust_sign_zero_iff_two_identical : H_TRIAGE_DET -> forall a b c,
   unit_pt a -> unit_pt b -> unit_pt c -> (robust_sign a b c = 0%Z <-> identical2 a b c = true).
 Proof. exact robust_sign_zero_iff. Qed.
 Print Assumptions robust_sign_zero_iff_two_identical.
 
 Theorem robust_sign_rotation : H_TRIAGE_DET -> H_STABLE_DET -> forall a b c,
-  unit_pt a -> unit_pt b -> unit_pt c -> robust_sign b c a = robust_sign a b c.
+  unit_pt a -> unit_pt b -> unit_pt c -> stable_ok a b c -> stable_ok b c a ->
+  robust_sign b c a = robust_sign a b c.
 Proof. exact robust_sign_rotate. Qed.
 Print Assumptions robust_sign_rotation.
 
 Theorem robust_sign_swap_negates : H_TRIAGE_DET -> H_STABLE_DET -> forall a b c,
-  unit_pt a -> unit_pt b -> unit_pt c -> robust_sign c b a = (- robust_sign a b c)%Z.
+  unit_pt a -> unit_pt b -> unit_pt c -> stable_ok a b c -> stable_ok c b a ->
+  robust_sign c b a = (- robust_sign a b c)%Z.
 Proof. exact robust_sign_swap. Qed.
 Print Assumptions robust_sign_swap_negates.
 
